@@ -317,6 +317,8 @@ Section Adapt.
   Definition prev1_of (base : str) (prev : option value) : option value :=
     match prev with
     | Some (VSpec _ _ _) => prev
+    | Some (VStr _) => None   (* a previous value that is neither None nor a spec (the whole previous list, handed to an
+                                 element of a list of another length): `prev_val is None` fails, no implicit class_path *)
     | _ => if cls_abstract F base then None else Some (VSpec (path_of F base) [] [])
     end.
 
